@@ -313,8 +313,109 @@ def rule_defaults(model):
     return r
 
 
+def _truth3(e, env):
+    """Three-valued truth of a test under env: name -> ('none'|'empty'|
+    'given'); 'empty' = an object that is not None but false."""
+    if isinstance(e, ast.Constant):
+        return bool(e.value)
+    if isinstance(e, ast.Name):
+        v = env.get(e.id)
+        if v == 'given':
+            return True
+        if v in ('none', 'empty'):
+            return False
+        return None
+    if isinstance(e, ast.UnaryOp) and isinstance(e.op, ast.Not):
+        v = _truth3(e.operand, env)
+        return None if v is None else not v
+    if isinstance(e, ast.BoolOp):
+        vs = [_truth3(v, env) for v in e.values]
+        if isinstance(e.op, ast.And):
+            if any(v is False for v in vs):
+                return False
+            return True if all(v is True for v in vs) else None
+        if any(v is True for v in vs):
+            return True
+        return False if all(v is False for v in vs) else None
+    if isinstance(e, ast.Compare) and len(e.ops) == 1 and \
+            isinstance(e.left, ast.Name) and e.left.id in env and \
+            isinstance(e.comparators[0], ast.Constant) and \
+            e.comparators[0].value is None:
+        isnone = env[e.left.id] == 'none'
+        if isinstance(e.ops[0], (ast.Is, ast.Eq)):
+            return isnone
+        if isinstance(e.ops[0], (ast.IsNot, ast.NotEq)):
+            return not isnone
+    if isinstance(e, ast.Call) and norm(e.func) == 'len' and e.args and \
+            isinstance(e.args[0], ast.Name) and e.args[0].id in env:
+        return env[e.args[0].id] == 'given'
+    return None
+
+
+def rule_munge(model):
+    r = RuleResult('C17.R7', 're-editing: munge() re-initialises the '
+                   'defaults whenever a mapping is given -- also an empty '
+                   'one -- or keyword defaults are given, so that the edited '
+                   'template equals a new one built from the same source '
+                   'and defaults')
+    from ..model import ancestors
+    fi = model.func('DT_String', 'String.munge')
+    ps = fi.params()
+    kw = fi.node.args.kwarg.arg if fi.node.args.kwarg else None
+    mp = next((p for p in ps if p not in ('self',) and 'map' in p), None)
+    if mp is None or kw is None:
+        raise AnalysisError('munge: mapping / **vars parameters not found')
+    calls = [c for c in own_nodes(fi.node) if isinstance(c, ast.Call)
+             and 'DT_String:String.initvars' in model.callee_names(c, fi)]
+    if not calls:
+        r.instance(fi.where, 'initvars(...)', 'MISSING')
+        r.finding(fi.where, 'initvars(...)', 'munge no longer '
+                  're-initialises the defaults', node=fi.node, ctx=fi)
+        return r
+    scenarios = [({mp: 'empty', kw: 'empty'}, 'an empty mapping'),
+                 ({mp: 'given', kw: 'empty'}, 'a mapping'),
+                 ({mp: 'none', kw: 'given'}, 'keyword defaults only')]
+    for c in calls:
+        guards = []
+        child = c
+        for a in ancestors(c):
+            if a is fi.node:
+                break
+            if isinstance(a, ast.If):
+                if any(child is x or any(child is y for y in ast.walk(x))
+                       for x in a.body):
+                    guards.append((a.test, True))
+                else:
+                    guards.append((a.test, False))
+            child = a
+        for env, what in scenarios:
+            verdict = True
+            for t, pos in guards:
+                v = _truth3(t, env)
+                if v is None:
+                    verdict = None
+                    break
+                if v != pos:
+                    verdict = False
+                    break
+            r.instance(fi.where, f'munge called with {what}',
+                       {True: 'defaults re-initialised',
+                        False: 'DEFAULTS KEPT', None: 'undecided'}[verdict])
+            if verdict is False:
+                r.finding(fi.where, guards[0][0] if guards else c,
+                          f'munge() called with {what} does not '
+                          're-initialise the defaults: the old defaults '
+                          'survive and the edited template differs from a '
+                          'new one built from the same source and defaults',
+                          node=c, ctx=fi)
+            elif verdict is None:
+                raise AnalysisError('munge: guard of initvars not '
+                                    f'understood ({norm(guards[0][0])})')
+    return r
+
+
 RULES = [rule_hidden_state, rule_recook, rule_getstate, rule_file,
-         rule_caller_data, rule_defaults]
+         rule_caller_data, rule_defaults, rule_munge]
 EXPLANATION = (
     'Enumeration of attribute / item stores and container mutations in '
     'render-reachable code whose receiver is a shared object; '
